@@ -232,6 +232,68 @@ theorem generated_rigid_source_matrices (F : Py.Fld K) (ψ : K → K) (c s cx cy
   · exact main _ hr.2.1
   · exact main _ hr.2.2.1
   · exact main _ hr.2.2.2
+
+theorem nodup_map_inj {α β : Type} (f : α → β) : ∀ l : List α, (l.map f).Nodup → ∀ x ∈ l, ∀ y ∈ l, f x = f y → x = y := by
+  intro l
+  induction l with
+  | nil => intro _ x hx; simp at hx
+  | cons a as ih =>
+    intro h x hx y hy e
+    rw [List.map_cons, List.nodup_cons] at h
+    rcases List.mem_cons.mp hx with rfl | hx' <;> rcases List.mem_cons.mp hy with rfl | hy'
+    · rfl
+    · exact absurd (List.mem_map.mpr ⟨y, hy', e.symm⟩) h.1
+    · exact absurd (List.mem_map.mpr ⟨x, hx', e⟩) h.1
+    · exact ih h.2 x hx' y hy' e
+
+/-- **renumbering the nodes does not change the generated `Tree.length`** (ordered field: the summands are permuted, so addition must commute):
+`σ` permutes `0 .. n-1` and keeps the root at 0, the new table carries every row along — `pids'[σ i] = σ (pids[i])` for the non-root rows,
+`xyz'[σ i] = xyz[i]` — both tables tree objects with coordinates (`C10.GeoTree`) -/
+theorem generated_tree_length_renumbered (norm : List K → K) (σ : Nat → Nat) (pids pids' : List Int) (axyz axyz' : List (List K)) (d : Nat)
+    (ht : C10.GeoTree pids axyz d) (ht' : C10.GeoTree pids' axyz' d) (hl : pids'.length = pids.length)
+    (hσ : ((List.range pids.length).map σ).Perm (List.range pids.length)) (h0 : σ 0 = 0)
+    (hp : ∀ i, 0 < i → i < pids.length → pids'.getD (σ i) 0 = ((σ (pids.getD i 0).toNat : Nat) : Int))
+    (hx : ∀ i, i < pids.length → row axyz' ((σ i : Nat) : Int) = row axyz (i : Int)) :
+    nf_tree_length norm (Sub.rangeI pids'.length) pids' axyz' = nf_tree_length norm (Sub.rangeI pids.length) pids axyz := by
+  rw [C10.generated_tree_length norm pids axyz d ht, C10.generated_tree_length norm pids' axyz' d ht', hl]
+  congr 1
+  set t : Nat → K := fun k => Py.Nf.sumK [norm (vec axyz (pids.getD k 0) ((k : Nat) : Int))] with ht_def
+  set t' : Nat → K := fun k => Py.Nf.sumK [norm (vec axyz' (pids'.getD k 0) ((k : Nat) : Int))] with ht'_def
+  have key : ∀ (u : Nat → K) (n : Nat), Py.Nf.sumK ((List.range (n - 1)).map fun k => u (k + 1)) =
+      ((List.range n).map fun k => if k = 0 then (0 : K) else u k).sum := by
+    intro u n
+    have hs : ∀ l : List K, Py.Nf.sumK l = l.sum := fun l => (List.sum_eq_foldl (xs := l)).symm
+    rw [hs]
+    cases n with
+    | zero => simp
+    | succ m =>
+      rw [List.range_succ_eq_map]
+      simp [List.map_map, Function.comp_def]
+  show Py.Nf.sumK ((List.range (pids.length - 1)).map fun k => t' (k + 1)) = Py.Nf.sumK ((List.range (pids.length - 1)).map fun k => t (k + 1))
+  rw [key t', key t]
+  have hperm := (hσ.map fun k => if k = 0 then (0 : K) else t' k).sum_eq
+  rw [← hperm, List.map_map]
+  congr 1
+  apply List.map_congr_left
+  intro i hi
+  have hin : i < pids.length := List.mem_range.mp hi
+  have hnd : ((List.range pids.length).map σ).Nodup := hσ.nodup_iff.mpr List.nodup_range
+  simp only [Function.comp]
+  by_cases hi0 : i = 0
+  · subst hi0; simp [h0]
+  · have hs0 : σ i ≠ 0 := by
+      intro hc
+      have := nodup_map_inj σ _ hnd i hi 0 (List.mem_range.mpr (by omega : 0 < pids.length)) (by rw [hc, h0])
+      exact hi0 this
+    rw [if_neg hs0, if_neg hi0]
+    obtain ⟨j, rfl⟩ : ∃ j, i = j + 1 := ⟨i - 1, by omega⟩
+    obtain ⟨hp0, hp1⟩ := ht.par j hin
+    simp only [ht_def, ht'_def]
+    congr 3
+    unfold vec
+    rw [hx (j + 1) hin, hp (j + 1) (by omega) hin, hx _ hp1]
+    congr 2
+    omega
 end field
 
 /-! non-vacuity, kernel-evaluated at `K = Rat` with `ψ = id` (squared lengths): the generated translation by (1, 2, 3) and the generated
@@ -264,6 +326,12 @@ example : Renumbered ivSwap [-1, 0, 1] [-1, 2, 0] :=
   ⟨by intro a b; simp only [ivSwap]; split_ifs <;> omega, by decide, by decide⟩
 example : lm_n_tips (Sub.rangeI 3) [-1, 2, 0] [1, 3, 3] = some 1 ∧ lm_n_tips (Sub.rangeI 3) [-1, 0, 1] [1, 3, 3] = some 1 ∧
     lm_n_tips (Sub.rangeI 3) [-1, 0, 0] [1, 3, 3] = some 2 := by decide +kernel
+example : nf_tree_length ivNorm (Sub.rangeI 3) [-1, 2, 0] [[0, 0, 0], [3, 4, 0], [3, 0, 0]] = some 25 ∧
+    C10.GeoTree [-1, 2, 0] ([[0, 0, 0], [3, 4, 0], [3, 0, 0]] : List (List Rat)) 3 := by
+  refine ⟨by decide +kernel, rfl, ?_, by decide⟩
+  intro k hk
+  have : k = 0 ∨ k = 1 := by simp at hk; omega
+  rcases this with rfl | rfl <;> decide
 end examples
 
 end C11
